@@ -404,8 +404,8 @@ def _shards(nkey, two_level):
 
 
 HARNESSES = [
-    H(history, shards=_shards("n", False), timeout={"quick": 90, "thorough": 1500}),
-    H(history3, shards=_shards("n3", True), timeout={"quick": 90, "thorough": 1500}),
+    H(history, shards=_shards("n", False), timeout={"quick": 120, "thorough": 1500}),
+    H(history3, shards=_shards("n3", True), timeout={"quick": 120, "thorough": 1500}),
 ]
 
 VECTORS = {
